@@ -131,6 +131,25 @@ pub fn generate(rng: &mut Rng, thorough: bool) -> Vec<String> {
         let op = if k % 2 == 0 { "pdt_until" } else { "pdt_since" };
         v.push(format!("{op} {a} {b} {l} - - {}", rng.pick(&MOPT)));
         v.push(format!("pdt_law_inv {a} {b} {}", rng.pick(&LARGEST)));
+        // difference with rounding to a time unit (or days) under a calendar largest unit: the second value lies a
+        // whole number of weeks / months / years away, give or take a few seconds around the point where the rounded
+        // time part completes a day - and with it, possibly, the next larger unit
+        if k % 4 == 0 {
+            let (y1, m1, dd1) = ymd_of(d1);
+            let (y1, m1, dd1) = (y1 as i128, m1 as i128, dd1 as i128);
+            let months = rng.range(-30, 30);
+            let ym = (y1 * 12 + (m1 - 1) + months).div_euclid(12);
+            let mm = (y1 * 12 + (m1 - 1) + months).rem_euclid(12) + 1;
+            let d3 = (temporal_rs::verif_hooks::epoch_days_from_gregorian_date(ym as i32, mm as u8, dd1.min(28) as u8) as i128 + *rng.pick(&[0i128, 0, 7, -7, 1, -1])).clamp(LO, HI);
+            let t3 = (t1 + *rng.pick(&[0i128, 20_000_000_000, -20_000_000_000, 1, -1, 1_799_000_000_000, -1_799_000_000_000, 43_200_000_000_000, -1_000_000])).rem_euclid(DAY);
+            let c = dt_str(d3, t3);
+            let (su, max): (&str, i128) = *rng.pick(&[("day", 1), ("hour", 24), ("minute", 60), ("second", 60), ("millisecond", 1000)]);
+            let divs: Vec<i128> = (1..=max).filter(|d| max % d == 0 && (*d < max || max == 1)).collect();
+            let inc = *rng.pick(&divs);
+            let lu = *rng.pick(&["year", "month", "week", "day", "-"]);
+            v.push(format!("{op} {a} {c} {lu} {su} {inc} {}", rng.pick(&MOPT)));
+            v.push(format!("{op} {c} {a} {lu} {su} {inc} {}", rng.pick(&MOPT)));
+        }
         // rounding
         let (u, max): (&str, i128) = *rng.pick(&[("day", 1), ("hour", 24), ("minute", 60), ("second", 60), ("millisecond", 1000), ("microsecond", 1000), ("nanosecond", 1000), ("week", 1), ("auto", 1)]);
         let inc = if rng.chance(1, 8) { rng.range(1, max + 3) } else {
